@@ -115,12 +115,14 @@ class Payload:
         self.x = j
 
 
-class StubFold:
-    def __init__(self, valid, confidence, error_trace, j):
-        self.valid = valid
-        self.confidence = confidence
-        self.error_trace = error_trace
-        self.structure = Payload(j)
+def StubFold(valid, confidence, error_trace, j, raw=""):
+    """What a scripted validator answers: the library's own EnhancedFoldedProtein (every public field the real
+    fold_enhanced fills is there: attempts, coercions_applied, strategy_used, raw_peptide_chain), with the scripted
+    verdict.  A plain look-alike object would make a change that reads more of the collaborator crash the harness
+    instead of being judged by the oracle."""
+    from operon_ai.organelles.chaperone import EnhancedFoldedProtein
+    return EnhancedFoldedProtein(valid=valid, structure=Payload(j), raw_peptide_chain=raw if isinstance(raw, str) else "",
+                                 error_trace=error_trace, confidence=confidence)
 
 
 class C18(Prop):
@@ -329,10 +331,13 @@ class C18(Prop):
         if not named:
             mi = 10
         n = max(mi, 0) + 2
-        fam = rng.choice(["forever", "forever", "stopat", "none", "raise", "random"])
+        fam = rng.choice(["forever", "forever", "stopat", "none", "raise", "random", "ghost"])
         k = rng.randint(0, n)
+        # h / m: the provider asks for a tool that is registered nowhere (alone / next to a registered one)
         ps = {"forever": rng.choice("1123"), "stopat": rng.choice("12") * k + rng.choice("0N"), "none": rng.choice("0N"),
-              "raise": "1" * k + rng.choice("xxuqte"), "random": "".join(rng.choice("01123NxuGJ") for _ in range(n))}[fam]
+              "raise": "1" * k + rng.choice("xxuqte"), "random": "".join(rng.choice("01123NxuGJhm") for _ in range(n)),
+              "ghost": rng.choice(["h", "h", "m", "1h", "h1", "hm", "".join(rng.choice("hhm1") for _ in range(n)),
+                                   "h" * k + rng.choice("01N")])}[fam]
         if rng.random() < 0.08:       # tool_calls as generator objects: G yields nothing (still truthy), J one call
             ps = "".join(rng.choice("GGJ1F") for _ in range(rng.randint(1, n))) + rng.choice("GJ0F")
         ts = rng.choice(["o", "o", "f", "of", "o" * k + "x", "".join(rng.choice("ooofxubwngLUP") for _ in range(n)),
@@ -341,6 +346,8 @@ class C18(Prop):
         # hasSchemas: 1 / 0 stub mitochondria with / without schemas; 2 / 3 the REAL Mitochondria with / without a tool
         r = rng.random()
         hs = "2" if r < 0.35 else "3" if r < 0.4 else "0" if r < 0.47 else "4" if r < 0.5 else "1"
+        if fam == "ghost" and rng.random() < 0.7:
+            hs = "2"           # an unregistered name means something to the real Mitochondria only
         return (f"{op} {mi if named else 'd'} {show_bool(rng.random() < 0.85)} {hs} "
                 f"{show_bool(rng.random() < 0.9)} {ps} {ts} {cs}")
 
@@ -427,6 +434,10 @@ class C18(Prop):
                     for ae in "10":
                         for cs in ("r", "u"):
                             tools.append({"lines": [f"tools {mi} {ae} 1 1 {''.join(ps)} o {cs}"], "note": "exhaustive tools"})
+            for L in range(1, 4):
+                for ps in itertools.product("1hm0", repeat=L):      # the real Mitochondria and made-up tool names
+                    if "h" in ps or "m" in ps:
+                        tools.append({"lines": [f"tools {mi} 1 2 1 {''.join(ps)} o r"], "note": "exhaustive tools, unregistered names"})
         live = []
         for mr0 in range(0, 4):
             for mr1 in range(-1, 4):
@@ -456,7 +467,9 @@ class C18(Prop):
                      "{garbage,json,raise,empty} up to length maxRetries+2" % (3 if big else 2), "cases": heal},
             {"name": "swarm: maxRegen 0..2 x maxSteps 0..3 x step scripts over {unique,same,marker,raise} x 2 thresholds",
              "cases": swarm},
-            {"name": "tools: maxIter 0..3 x provider scripts over {no calls, one call, raise} x auto_execute x final completion {ok, raises ProviderUnavailableError}", "cases": tools},
+            {"name": "tools: maxIter 0..3 x provider scripts over {no calls, one call, raise} x auto_execute x final completion "
+                     "{ok, raises ProviderUnavailableError}; real Mitochondria x scripts over {registered call, unregistered name, "
+                     "both, none} up to length 3", "cases": tools},
         ]
 
     # --- implementation: heal ------------------------------------------------------------------------------------
@@ -499,10 +512,10 @@ class C18(Prop):
             raise AdvError("validator")
         if item in t:
             v, c, tr = t[item]
-            return StubFold(v, c, tr, j)
+            return StubFold(v, c, tr, j, raw)
         if raw.startswith("{"):
-            return StubFold(True, 1.0, None, j)
-        return StubFold(False, 0.0, "all strategies failed", j)
+            return StubFold(True, 1.0, None, j, raw)
+        return StubFold(False, 0.0, "all strategies failed", j, raw)
 
     def _new_loop(self, mr, decay, real):
         """A ChaperoneLoop whose generator / chaperone delegate to whatever adversary the current call line installed
@@ -518,10 +531,15 @@ class C18(Prop):
                 return box["adv"].gen(prompt, error_context)
             return gen
 
-        class Chap:
+        class Chap(prop.Chaperone):
+            """The REAL Chaperone (every public attribute and method it has: max_retries, strategies, fold, get_statistics
+            ...) with fold_enhanced handed to the adversary of the current call; in `real` mode the adversary asks the
+            real fold_enhanced of this very object."""
             def __init__(self, my_id):
+                super().__init__(silent=True)
                 self.my_id = my_id
-                self.real = prop.Chaperone(silent=True) if real else None
+                self.real = (lambda raw, schema, *a, **kw: prop.Chaperone.fold_enhanced(self, raw, schema, *a, **kw)) \
+                    if real else None
 
             def fold_enhanced(self, raw, schema, *a, **kw):
                 if self.my_id != box["chap_id"]:
@@ -597,7 +615,7 @@ class C18(Prop):
                 rec = calls[-1] if calls else {}
                 rec["fold"] = "x"
                 if real_chap is not None:
-                    f = real_chap.fold_enhanced(raw, schema, *a, **kw)
+                    f = real_chap(raw, schema, *a, **kw)
                 else:
                     f = prop._fold_stub(pick(fs, j, "A"), j, raw)
                 rec["fold"] = "v" if f.valid else "i"
@@ -696,10 +714,11 @@ class C18(Prop):
         sw, box = st["swarm"], st["box"]
         prop = self
 
-        class W:
+        class W(prop.rs.SimpleWorker):
+            """a worker of the caller's own (the Worker protocol: id, memory, step) that is also everything the library's
+            SimpleWorker is (status, work_function, dataclass fields); its step is the scripted one"""
             def __init__(self, name):
-                self.id = name
-                self.memory = prop.rs.WorkerMemory()
+                super().__init__(id=name, work_function=lambda task, memory: adv.step(self, task, record=False))
 
             def step(self, task):
                 return adv.step(self, task)
@@ -887,16 +906,18 @@ class C18(Prop):
         def view(prompt):
             return show_ns(nonces(prompt))
 
-        class Call:
-            def __init__(self, cid):
-                self.cid = cid
-                self.id = f"<{500 + cid}>"
-                self.name = "t"
-                self.arguments = {}
+        from operon_ai.organelles.mitochondria import Mitochondria
+        from operon_ai.providers import ToolCall, ToolResult, ToolSchema
 
-        class Res:
-            def __init__(self, call_id, output, success, error):
-                self.call_id, self.output, self.success, self.error = call_id, output, success, error
+        def Call(cid, name="t"):
+            """the library's own ToolCall; `cid` rides along as an argument (the scripted tool accepts it) and as an
+            attribute.  name "ghost" = a tool the provider made up: it is registered nowhere."""
+            c = ToolCall(id=f"<{500 + cid}>", name=name, arguments={"cid": cid})
+            c.cid = cid
+            return c
+
+        def Res(call_id, output, success, error):
+            return ToolResult(call_id=call_id, output=output, success=success, error=error)
 
         class Base:
             name = "adv"
@@ -933,6 +954,10 @@ class C18(Prop):
                     calls = [Call(i * 10 + j) for j in range(int(item))]
                     evs.append(("T", view(prompt), str(len(calls))))
                     return r, calls
+                if item in "hm":      # h: one call naming a tool nobody registered; m: a registered and a made-up one
+                    calls = ([Call(i * 10)] if item == "m" else []) + [Call(5000 + i * 10 + (item == "m"), "ghost")]
+                    evs.append(("T", view(prompt), str(len(calls))))
+                    return r, calls
                 if item == "F":       # a list that holds a call but whose __bool__ answers False: "no tool calls"
                     r.rid = 4000 + i
                     evs.append(("T", view(prompt), "1"))
@@ -945,11 +970,14 @@ class C18(Prop):
                 evs.append(("T", view(prompt), "0"))
                 return r, None
 
-        class Mito:
+        class Mito(Mitochondria):
+            """the adversarial mitochondria: the REAL class (every public attribute / method a changed loop might read is
+            there) with the two callbacks of the tool loop scripted - the executor itself may raise, whatever the name"""
             def export_tool_schemas(self):
                 if t[3] == "4":            # the mitochondria's own callback raises before any provider call
                     raise boom("x", "schemas")
-                return [object()] if hsch else []
+                return [ToolSchema(name="t", description="scripted", parameters_schema={"type": "object", "properties": {}})] \
+                    if hsch else []
 
             def execute_tool_call(self, call):
                 e = cnt["e"]
@@ -964,6 +992,13 @@ class C18(Prop):
                 evs.append(("E", str(call.cid), "o"))
                 return Res(call.id, tool_out(item, e), True, f"<{900 + e}>")
 
+        class RecMito(Mitochondria):
+            """the real Mitochondria, untouched: execute_tool_call is the library's own, only recorded"""
+            def execute_tool_call(self, call):
+                r = super().execute_tool_call(call)
+                evs.append(("E", str(getattr(call, "cid", "?")), "o" if r.success else "f"))
+                return r
+
         def tool_out(item, e):
             return {"b": "", "w": " \n\t ", "n": None, "L": f"<{100 + e}>" + "z" * 4000 + f"<{700 + e}>",
                     "U": f"résultat ñ 价格 <{100 + e}>",
@@ -976,21 +1011,14 @@ class C18(Prop):
             cnt["e"] += 1
             item = pick(ts, e, "o")
             if item in "xufg":
-                evs.append(("E", str(cid), "f"))
                 raise (self.LIB_ERR["u"] if item == "u" else AdvError)("" if item == "g" else f"<{100 + e}>")
-            evs.append(("E", str(cid), "o"))
             return tool_out(item, e)
         if real_mito:
-            from operon_ai.organelles.mitochondria import Mitochondria
-            from operon_ai.providers import ToolCall
-            mito = Mitochondria(silent=True)
+            mito = RecMito(silent=True)
             if hsch:
                 mito.register_function("t", real_tool, "scripted tool")
-
-            def Call(cid):                       # noqa: the real ToolCall
-                return ToolCall(id=f"<{500 + cid}>", name="t", arguments={"cid": cid})
         else:
-            mito = Mito()
+            mito = Mito(silent=True)
         provider = WithTools() if hapi else Base()
         idle0 = self.idle_calls
         if st is None:
@@ -1032,13 +1060,14 @@ class C18(Prop):
                 raise Runaway("provider")
             (outer if st["depth"] == 0 else inners[-1])[kind] += 1
 
-        class Call:
-            def __init__(self, cid):
-                self.id, self.name, self.arguments = f"c{cid}", "t", {}
+        from operon_ai.organelles.mitochondria import Mitochondria
+        from operon_ai.providers import ToolCall, ToolResult, ToolSchema
 
-        class Res:
-            def __init__(self, call_id, output):
-                self.call_id, self.output, self.success, self.error = call_id, output, True, None
+        def Call(cid):
+            return ToolCall(id=f"c{cid}", name="t", arguments={})
+
+        def Res(call_id, output):
+            return ToolResult(call_id=call_id, output=output, success=True, error=None)
 
         class Prov:
             name = "adv"
@@ -1054,9 +1083,12 @@ class C18(Prop):
                 bump("T")
                 return LLMResponse("round", "m", 1, 1.0), [Call(j) for j in range(ncalls)]
 
-        class Plain:
+        class Plain(Mitochondria):
+            def __init__(self):
+                super().__init__(silent=True)
+
             def export_tool_schemas(self):
-                return [object()]
+                return [ToolSchema(name="t", description="scripted", parameters_schema={"type": "object", "properties": {}})]
 
             def execute_tool_call(self, call):
                 return Res(call.id, "r")
@@ -1086,13 +1118,14 @@ class C18(Prop):
         LLMResponse = self.LLMResponse
         cnt = {"T": 0, "C": 0, "E": 0}
 
-        class Call:
-            def __init__(self, i):
-                self.id, self.name, self.arguments = f"c{i}", "t", {}
+        from operon_ai.organelles.mitochondria import Mitochondria
+        from operon_ai.providers import ToolCall, ToolResult, ToolSchema
 
-        class Res:
-            def __init__(self, cid):
-                self.call_id, self.output, self.success, self.error = cid, "r", True, None
+        def Call(i):
+            return ToolCall(id=f"c{i}", name="t", arguments={})
+
+        def Res(cid):
+            return ToolResult(call_id=cid, output="r", success=True, error=None)
 
         class Prov:
             name = "adv"
@@ -1115,9 +1148,9 @@ class C18(Prop):
                 k = int(item) if item.isdigit() else 0
                 return LLMResponse("round", "m", 1, 1.0), (Call(i * 10 + j) for j in range(k))
 
-        class Mito:
+        class Mito(Mitochondria):
             def export_tool_schemas(self):
-                return [object()]
+                return [ToolSchema(name="t", description="scripted", parameters_schema={"type": "object", "properties": {}})]
 
             def execute_tool_call(self, call):
                 cnt["E"] += 1
@@ -1125,7 +1158,7 @@ class C18(Prop):
         nuc = self.nu.Nucleus(provider=Prov())
         exc = None
         try:
-            nuc.transcribe_with_tools("Q<7>", Mito(), max_iterations=mi)
+            nuc.transcribe_with_tools("Q<7>", Mito(silent=True), max_iterations=mi)
         except Exception as e:   # noqa
             exc = e
         return "ok", {"kind": "gtools", "mi": mi, "cnt": cnt, "exc": exc}
